@@ -14,7 +14,7 @@ func init() {
 	register("C13",
 		"Structural necessary conditions of C13 decided from /repo's SSA: (spawn) every process is started through (*Repository).GitCommand except the one rev-parse --git-dir discovery call; (isolation) GitCommand puts --no-replace-objects before the caller's arguments and sets cmd.Env = os.Environ() + GIT_DIR=<repo.gitDir> + GIT_GRAFT_FILE=<os.DevNull> with nothing after them, and nobody else rewrites an exec.Cmd's Env/Args/Path/Dir; (shallow) every non-nil *Repository returned by a constructor is dominated by the IsFull()==true, err==nil edges and IsFull tests the path `rev-parse --git-path shallow`; (gitdir) the gitDir field is written only at construction and, on every path, with a value derived from the standard output of `git -C <path> rev-parse --git-dir` (no shortcut that guesses the directory). Not decided: equality of reports across addressing modes, git's own handling of these flags.",
 		[]string{"git honours --no-replace-objects, GIT_GRAFT_FILE and GIT_DIR as documented", "os/exec passes Env and Args unchanged to the child", "later duplicates in Env win (os/exec dedupEnv)"},
-		ruleC13Spawn, ruleC13Isolation, ruleC13Shallow, ruleC13GitDir)
+		ruleC13Spawn, ruleC13Isolation, ruleC13Shallow, ruleC13GitDir, ruleC13StartDir)
 }
 
 const pipeCommandQ = pipePkg + ".Command"
@@ -690,6 +690,33 @@ func (c *Ctx) fromDiscovery(v ssa.Value, depth int) (bool, string) {
 		if len(x.Call.Args) == 0 {
 			return false, "value produced by " + calleeQ(&x.Call)
 		}
+		// only path and string arithmetic may lie between git's answer and the
+		// directory used: anything read from the file system or the environment
+		// on the way (a `commondir` file, a symlink target, $PWD) replaces git's
+		// answer by something else
+		if q := calleeQ(&x.Call); !pureStringFn(q) {
+			if cal := x.Call.StaticCallee(); cal == nil || !c.inRuleScope(cal) || !c.pureModuleStringFn(cal, 0) {
+				return false, "passes through " + q + ", which is not path/string arithmetic"
+			}
+		}
+		// every operand must itself be clean: git's answer, the start directory,
+		// a constant, or path arithmetic on those
+		for _, a := range x.Call.Args {
+			ops := []ssa.Value{a}
+			if els := c.sliceElemValues(a); len(els) > 0 {
+				ops = nil
+				for _, el := range els {
+					if el != nil {
+						ops = append(ops, el)
+					}
+				}
+			}
+			for _, op := range ops {
+				if ok, why := c.cleanPathOperand(op, depth+1); !ok {
+					return false, why
+				}
+			}
+		}
 		for _, a := range x.Call.Args {
 			if ok, _ := c.fromDiscovery(a, depth+1); ok {
 				return true, ""
@@ -748,4 +775,164 @@ func (c *Ctx) fromDiscovery(v ssa.Value, depth int) (bool, string) {
 func asCallValue(ci ssa.CallInstruction) *ssa.Call {
 	call, _ := ci.(*ssa.Call)
 	return call
+}
+
+func pureStringFn(q string) bool {
+	for _, p := range []string{"path/filepath.Join", "path/filepath.Clean", "path/filepath.IsAbs", "path/filepath.FromSlash", "path/filepath.ToSlash", "path.Join", "path.Clean", "strings.Trim", "bytes.Trim", "strings.TrimSpace", "bytes.TrimSpace", "strings.TrimRight", "bytes.TrimRight", "strings.TrimSuffix", "bytes.TrimSuffix"} {
+		if strings.HasPrefix(q, p) {
+			return true
+		}
+	}
+	return false
+}
+
+// pureModuleStringFn: a module function that only calls pure string/path
+// functions (smartJoin).
+func (c *Ctx) pureModuleStringFn(f *ssa.Function, depth int) bool {
+	if depth > 3 || len(f.Blocks) == 0 {
+		return false
+	}
+	pure := true
+	allInstrs(f, func(in ssa.Instruction) {
+		switch x := in.(type) {
+		case *ssa.Call:
+			if _, isBuiltin := x.Call.Value.(*ssa.Builtin); isBuiltin {
+				return
+			}
+			q := calleeQ(&x.Call)
+			if pureStringFn(q) {
+				return
+			}
+			if cal := x.Call.StaticCallee(); cal != nil && c.inRuleScope(cal) && c.pureModuleStringFn(cal, depth+1) {
+				return
+			}
+			pure = false
+		case *ssa.Go, *ssa.Defer, *ssa.Send, *ssa.MapUpdate:
+			pure = false
+		case *ssa.Store:
+			if _, isAlloc := x.Addr.(*ssa.Alloc); !isAlloc {
+				if _, isIA := x.Addr.(*ssa.IndexAddr); !isIA {
+					pure = false
+				}
+			}
+		}
+	})
+	return pure
+}
+
+// cleanPathOperand: v is git's answer, a constant, a parameter (the start
+// directory handed down by the caller) or path/string arithmetic on such
+// values — nothing read from the file system or the environment.
+func (c *Ctx) cleanPathOperand(v ssa.Value, depth int) (bool, string) {
+	if depth > 12 {
+		return false, "value chain too deep"
+	}
+	v = c.resolve(v)
+	switch x := v.(type) {
+	case *ssa.Const, *ssa.Parameter:
+		return true, ""
+	case *ssa.Extract:
+		if ok, _ := c.fromDiscovery(x, depth+1); ok {
+			return true, ""
+		}
+		if call, ok := x.Tuple.(*ssa.Call); ok {
+			return false, "uses the result of " + calleeQ(&call.Call)
+		}
+		return false, "uses a computed tuple element"
+	case *ssa.Call:
+		q := calleeQ(&x.Call)
+		if _, isBuiltin := x.Call.Value.(*ssa.Builtin); !isBuiltin && !pureStringFn(q) {
+			if cal := x.Call.StaticCallee(); cal == nil || !c.inRuleScope(cal) || !c.pureModuleStringFn(cal, 0) {
+				return false, "uses the result of " + q
+			}
+		}
+		for _, a := range x.Call.Args {
+			ops := []ssa.Value{a}
+			if els := c.sliceElemValues(a); len(els) > 0 {
+				ops = nil
+				for _, el := range els {
+					if el != nil {
+						ops = append(ops, el)
+					}
+				}
+			}
+			for _, op := range ops {
+				if ok, why := c.cleanPathOperand(op, depth+1); !ok {
+					return false, why
+				}
+			}
+		}
+		return true, ""
+	case *ssa.Convert:
+		return c.cleanPathOperand(x.X, depth+1)
+	case *ssa.ChangeType:
+		return c.cleanPathOperand(x.X, depth+1)
+	case *ssa.Slice:
+		return c.cleanPathOperand(x.X, depth+1)
+	case *ssa.BinOp:
+		if ok, why := c.cleanPathOperand(x.X, depth+1); !ok {
+			return false, why
+		}
+		return c.cleanPathOperand(x.Y, depth+1)
+	case *ssa.Phi:
+		for _, e := range x.Edges {
+			if ok, why := c.cleanPathOperand(e, depth+1); !ok {
+				return false, why
+			}
+		}
+		return true, ""
+	}
+	return false, fmt.Sprintf("uses a %T", v)
+}
+
+// ruleC13StartDir: discovery starts from the process's real current
+// directory ("." — what `git -C <dir>` changed into), not from a path taken
+// from the environment ($PWD is not updated by `git -C`) or computed some
+// other way.
+func ruleC13StartDir(c *Ctx) {
+	n := 0
+	for _, f := range c.ModFns {
+		if pkgOf(f) != modPath+"/git" || f.Parent() != nil || len(f.Blocks) == 0 {
+			continue
+		}
+		// the discovery function: runs `rev-parse --git-dir` with -C <its string parameter>
+		var site *spawnSite
+		for _, s := range c.spawnTable() {
+			if s.Fn == f {
+				hasRev, hasDir := false, false
+				for _, a := range s.Argv {
+					hasRev = hasRev || a == "rev-parse"
+					hasDir = hasDir || a == "--git-dir" || a == "--absolute-git-dir"
+				}
+				if hasRev && hasDir {
+					site = s
+				}
+			}
+		}
+		if site == nil {
+			continue
+		}
+		for _, ci := range c.Callers[f] {
+			if !inModulePath(pkgOf(ci.Parent())) || pkgOf(ci.Parent()) == modPath+"/git" {
+				continue
+			}
+			for i, a := range ci.Common().Args {
+				if b, ok := a.Type().Underlying().(*types.Basic); !ok || b.Kind() != types.String {
+					continue
+				}
+				n++
+				key := fmt.Sprintf("start-dir@%s#%d", fnName(ci.Parent()), i)
+				if s, ok := constStr(c.resolve(a)); ok && (s == "." || s == "") {
+					c.hold("C13.gitdir", key, ci.Pos(), "discovery starts at the process's current directory")
+				} else if ok {
+					c.violate("C13.gitdir", key, ci.Pos(), fnName(ci.Parent()), fmt.Sprintf("the repository is looked for at the fixed path %q instead of the current directory", s))
+				} else {
+					c.violate("C13.gitdir", key, ci.Pos(), fnName(ci.Parent()), "the repository is looked for at a computed path instead of \".\": `git -C <dir> sizer`, which changes the directory but not $PWD, would measure another repository")
+				}
+			}
+		}
+	}
+	if n == 0 {
+		c.notDecided("C13.gitdir", "start-dir", token.NoPos, "no call of the discovery function from outside package git found")
+	}
 }
